@@ -13,6 +13,7 @@ mod refcodec;
 mod rng;
 mod runner;
 mod simdisk;
+mod view;
 
 use runner::*;
 use std::path::PathBuf;
@@ -105,6 +106,7 @@ fn main() {
         "C01" => dispatch(&props::c01::C01, &mode, &opts),
         "C02" => dispatch(&props::c02::C02, &mode, &opts),
         "C03" => dispatch(&props::c03::C03, &mode, &opts),
+        "C05" => dispatch(&props::c05::C05, &mode, &opts),
         "C06" => dispatch(&props::c06::C06, &mode, &opts),
         "C10" => dispatch(&props::c10::C10, &mode, &opts),
         "C11" => dispatch(&props::c11::C11, &mode, &opts),
